@@ -136,6 +136,19 @@ def dispatch(rec):
         except Exception as e:
             return {"reproduced": None, "error": f"{type(e).__name__}: {e}\n{traceback.format_exc()[-1500:]}"}
     fn = globals().get("replay_" + prop)
+    if fn is None and isinstance(rec.get("witness"), dict) and "facts" in rec["witness"]:
+        # finite fact rules: re-extract the facts from the real classes in this clean process
+        import importlib
+
+        try:
+            mod = importlib.import_module(f"kv.props.{prop.lower()}")
+            q = mod.rules()[0]
+            for name, ok, detail in q.results:
+                if name == rec["witness"]["facts"]:
+                    return {"reproduced": ok is False, "sig": {"kind": "facts", "rule": name}, "detail": f"{name}: {detail}"}
+            return {"reproduced": None, "error": "unknown facts rule"}
+        except Exception as e:
+            return {"reproduced": None, "error": f"{type(e).__name__}: {e}\n{traceback.format_exc()[-1500:]}"}
     if fn is None:
         import importlib
 
@@ -518,6 +531,31 @@ def replay_C09(w, clause):
     if want is None or (res is not want[0] and res is not want[1]):
         return {"reproduced": True, "sig": {"kind": "wrong_result"}, "detail": f"{w}: returned {res!r}"}
     return {"reproduced": False, "detail": "correct"}
+
+
+def replay_C15(w, clause):
+    import dataclasses as _dc
+
+    from . import shapes
+
+    a, b = shapes.from_jsonable(w["a"]), shapes.from_jsonable(w["b"])
+
+    def fieldwise(x, y):
+        if _dc.is_dataclass(x) and not isinstance(x, type):
+            return type(x) is type(y) and all(fieldwise(getattr(x, f.name), getattr(y, f.name)) for f in _dc.fields(x))
+        if isinstance(x, tuple):
+            return isinstance(y, tuple) and len(x) == len(y) and all(fieldwise(p, q) for p, q in zip(x, y))
+        return x == y
+
+    spec = fieldwise(a, b)
+    got = a == b
+    if got != spec:
+        return {"reproduced": True, "sig": {"kind": "eq_disagrees_with_fieldwise"}, "detail": f"{w['class']}: a == b is {got} but field-wise equality is {spec}"}
+    if not (a == a) or (a != b) == got:
+        return {"reproduced": True, "sig": {"kind": "eq_not_reflexive_or_ne_inconsistent"}, "detail": w["class"]}
+    if got and hash(a) != hash(b):
+        return {"reproduced": True, "sig": {"kind": "equal_but_hash_differs"}, "detail": w["class"]}
+    return {"reproduced": False, "detail": "__eq__ agrees with field-wise equality"}
 
 
 if __name__ == "__main__":
